@@ -8,7 +8,7 @@ from vf.core import call, exc_desc
 from vf.lazy import ck, libx, common
 
 PROP = "C18"
-TECHNIQUE = ('runtime monitoring of parsing / writing: round trips judged by reference equality, totality on random and grammar-mutated texts under a line-event step budget (sys.monitoring), scanner line coverage; atheris (libFuzzer) in the thorough tier; file round trips of rankings of 80-2000 elements (lines of 1000+ characters, blanks in names); long damaged texts parsed by a separate interpreter under a wall-clock bound (a hang inside C code yields no line event)')
+TECHNIQUE = ('runtime monitoring of parsing / writing: round trips judged by reference equality, totality on random and grammar-mutated texts under a line-event step budget (sys.monitoring), scanner line coverage; atheris (libFuzzer) in the thorough tier; file round trips of rankings of 80-2000 elements (lines of 1000+ characters, blanks in names); long damaged texts parsed by a separate interpreter under a wall-clock bound (a hang inside C code yields no line event); well-formed texts naming an element twice')
 RULE = ("(1) round trips: rankings over the stated alphabet (non-negative ints; strings of ASCII / non-ASCII letters, inner "
         "spaces, digits with letters, punctuation other than []{},: -- never readable as an integer) printed in brace and "
         "bracket notation, with padding and a 'name:' prefix, parsed back with Ranking.from_string; datasets (incl. empty "
